@@ -692,6 +692,22 @@ class BaseSection(base.Sectionable):
             if mine is not None:
                 mine.merge_check(obj, strict)
 
+    def _merge_name_check(self, source_section):
+        """
+        Recursively checks that no child Section of a source Section shares its name
+        but not its type with a child Section of self as destination. Such a Section
+        can neither be merged nor be added; raises a ValueError if one is found.
+
+        :param source_section: an odML Section.
+        """
+        for sec in source_section.sections:
+            mine = self.contains(sec)
+            if mine is not None:
+                mine._merge_name_check(sec)
+            elif sec.name in self.sections:
+                raise ValueError("odml.Section.merge: dest already contains a Section "
+                                 "named '%s' with a different type!" % sec.name)
+
     def merge(self, section=None, strict=True):
         """
         Merges this section with another *section*.
@@ -718,6 +734,7 @@ class BaseSection(base.Sectionable):
         # its children can be merged with self and its children since
         # there is no rollback in case of a downstream merge error.
         self.merge_check(section, strict)
+        self._merge_name_check(section)
 
         if self.definition is None and section.definition is not None:
             self.definition = section.definition
